@@ -134,6 +134,22 @@ def _touch_all(griffe, loader, viols, where):
     return tuple(sorted(map(str, table)))
 
 
+def _passive(griffe, loader):
+    """(path, target_path, resolved) of every alias, read without triggering any resolution."""
+    rows = []
+
+    def visit(obj, depth=0):
+        for m in list(obj.members.values()):
+            if m.is_alias:
+                rows.append((m.path, m.target_path, m._target is not None))
+            elif depth < 6 and (m.is_module or m.is_class):
+                visit(m, depth + 1)
+
+    for mod in list(loader.modules_collection.members.values()):
+        visit(mod)
+    return sorted(rows)
+
+
 def _new_loader(griffe, d):
     """A loader whose wildcard-created aliases are recorded (strong references) through the documented extension hook."""
     created = []
@@ -171,14 +187,16 @@ def check_graph(griffe, g):
                     unresolved1, _ = loader.resolve_aliases(implicit=True, external=False)
                 except Exception as e:  # noqa: BLE001
                     return [(f"raise/{type(e).__name__}@{_frame(e)}/resolve_aliases", f"resolve_aliases() raised {e!r}")]
-                t1 = _touch_all(griffe, loader, viols, None)
+                snap1 = _passive(griffe, loader)
                 try:
                     unresolved2, _ = loader.resolve_aliases(implicit=True, external=False)
                 except Exception as e:  # noqa: BLE001
                     return [(f"raise/{type(e).__name__}@{_frame(e)}/second-resolve_aliases", f"second resolve_aliases() raised {e!r}")]
-                t2 = _touch_all(griffe, loader, [], None)
-                if t1 != t2 or unresolved1 != unresolved2:
-                    viols.append(("fixpoint/changed-by-second-resolution", f"second resolve_aliases changed the alias table or the unresolved set ({sorted(unresolved1)} -> {sorted(unresolved2)})", None))
+                snap2 = _passive(griffe, loader)
+                if snap1 != snap2 or unresolved1 != unresolved2:
+                    diff = [r for r in snap2 if r not in snap1][:3]
+                    viols.append(("fixpoint/changed-by-second-resolution", f"second resolve_aliases changed (resolved, target_path) of {diff} or the unresolved set ({sorted(unresolved1)} -> {sorted(unresolved2)})", None))
+                _touch_all(griffe, loader, viols, None)
         except sandbox.CaseTimeout:
             return [("hang/10s", "no result within 10 s")]
         except RecursionError:
@@ -283,14 +301,14 @@ def run_histories(griffe, tier):
                     h2 = hist + (oi,)
                     loader, viols = replay(h2)
                     table = _touch_all(griffe, loader, viols, None)
-                    # I4 on this state
+                    # I4 on this state (passive snapshots: reading must not resolve anything)
                     try:
                         u1, _ = loader.resolve_aliases(implicit=True, external=False)
-                        t1 = _touch_all(griffe, loader, [], None)
+                        s1 = _passive(griffe, loader)
                         u2, _ = loader.resolve_aliases(implicit=True, external=False)
-                        t2 = _touch_all(griffe, loader, [], None)
-                        if t1 != t2 or u1 != u2:
-                            viols.append(("fixpoint/history", "repeating resolve_aliases changed the alias table", None))
+                        s2 = _passive(griffe, loader)
+                        if s1 != s2 or u1 != u2:
+                            viols.append(("fixpoint/history", "repeating resolve_aliases changed (resolved, target_path) of some alias or the unresolved set", None))
                     except Exception as e:  # noqa: BLE001
                         viols.append((f"raise/{type(e).__name__}@{_frame(e)}/history-fixpoint", repr(e), None))
                     acc.transitions += 1
